@@ -10,6 +10,9 @@ use sm9_core::{Fq2, Group, G2};
 
 /// the sub-alphabet S of FP(q) whose pairs form FQ2
 pub fn comp_alpha(count: usize, seed: u64) -> Vec<N> {
+    comp_alpha_x(count, seed, 11)
+}
+pub fn comp_alpha_x(count: usize, seed: u64, top_band: u64) -> Vec<N> {
     let p = q();
     let ri = rinv(p);
     let mut v = vec![
@@ -29,10 +32,19 @@ pub fn comp_alpha(count: usize, seed: u64) -> Vec<N> {
     v.extend(fp_small(p, count, seed));
     let mut v = dedup(v);
     v.truncate(count);
-    v
+    // elements whose STORED (Montgomery) value is q-1-i: products of such values put the lazy-reduction
+    // accumulator into its top band, where the extra carry limb is set AND the low part still exceeds q
+    // (two subtractions needed) - a band that random and "small" operands never reach
+    for i in 1..=top_band {
+        v.push(mulm(&(p - n(1) - n(i)), &ri, p));
+    }
+    dedup(v)
 }
 pub fn fq2_alpha(count: usize, seed: u64) -> Vec<F2> {
-    let s = comp_alpha(count, seed);
+    fq2_alpha_x(count, seed, 11)
+}
+pub fn fq2_alpha_x(count: usize, seed: u64, top_band: u64) -> Vec<F2> {
+    let s = comp_alpha_x(count, seed, top_band);
     let mut out = vec![];
     for a in &s {
         for b in &s {
@@ -143,27 +155,35 @@ pub fn square_case(s: &F2) -> Result<u32, Bad> {
     Ok(3)
 }
 
-const U4_CLASSES: [&str; 4] = ["c0:u4=0", "c0:u4=1", "c1:u4=0", "c1:u4=1"];
-fn u4_classes(p: &N, pinv_neg: &N, rm: &N, x: &F2, y: &F2) -> u32 {
+const U4_CLASSES: [&str; 8] = [
+    "c0:u4=0,low<q", "c0:u4=0,low>=q", "c0:u4=1,one-subtraction", "c0:u4=1,two-subtractions",
+    "c1:u4=0,low<q", "c1:u4=0,low>=q", "c1:u4=1,one-subtraction", "c1:u4=1,two-subtractions",
+];
+/// class of one lazy-reduction accumulator: u = (S + m q) / 2^256 as a 5-limb value; u4 = its top limb,
+/// and how many subtractions of q the final reduction needs
+pub fn acc_class(p: &N, pinv_neg: &N, s: N) -> u32 {
     let t256 = two(256);
+    let m = (&s * pinv_neg) % &t256;
+    let u: N = (&s + &m * p) >> 256;
+    let u4: N = &u >> 256;
+    let low: N = &u % &t256;
+    if u4.is_zero() {
+        if &low < p { 0 } else { 1 }
+    } else {
+        // true value low + 2^256 - k q must land in [0, q)
+        if &(&low + &t256) - p < *p { 2 } else { 3 }
+    }
+}
+fn u4_classes(p: &N, pinv_neg: &N, rm: &N, x: &F2, y: &F2) -> u32 {
     let raw = |v: &N| mulm(v, rm, p);
     let a0 = raw(&x.a);
     let a1 = raw(&x.b);
     let a1m2 = raw(&negm(&((n(2) * &x.b) % p), p));
     let b0 = raw(&y.a);
     let b1 = raw(&y.b);
-    let u4 = |s: N| -> u32 {
-        let m = (&s * pinv_neg) % &t256;
-        let u: N = (&s + &m * p) >> 512;
-        if u.is_zero() {
-            0
-        } else {
-            1
-        }
-    };
-    let c0 = u4(&a0 * &b0 + &a1m2 * &b1);
-    let c1 = u4(&a0 * &b1 + &a1 * &b0);
-    (1 << c0) | (1 << (2 + c1))
+    let c0 = acc_class(p, pinv_neg, &a0 * &b0 + &a1m2 * &b1);
+    let c1 = acc_class(p, pinv_neg, &a0 * &b1 + &a1 * &b0);
+    (1 << c0) | (1 << (4 + c1))
 }
 
 pub fn run(run: &Run) {
@@ -178,7 +198,7 @@ pub fn run(run: &Run) {
     let pinv_neg = &t256 - &pinv;
     let rm = rmont(&p);
     run.note("alphabet_FQ2", json!({"components": cnt, "elements": nn}));
-    let classes_on = nn <= 400;
+    let classes_on = nn <= 1000;
     run.grid(
         Spec { name: "c12.pair", n: nn * nn, classes: &U4_CLASSES, required: if classes_on { &U4_CLASSES } else { &[] } },
         |i| {
@@ -203,7 +223,7 @@ pub fn run(run: &Run) {
             |i| json!({"op": "c12.pair", "x": j2(&al2[(i / n2) as usize]), "y": j2(&al2[(i % n2) as usize])}),
         );
     }
-    let fal = fq2_alpha(run.tier.pick(6, 10), run.seed);
+    let fal = fq2_alpha_x(run.tier.pick(6, 10), run.seed, 1);
     let flv: Vec<Fq2> = fal.iter().map(fq2).collect();
     let fnn = fal.len() as u64;
     run.grid(
@@ -223,7 +243,7 @@ pub fn run(run: &Run) {
         },
         |i| json!({"op": "c12.unary", "x": j2(&al[i as usize])}),
     );
-    let tal = fq2_alpha(run.tier.pick(6, 9), run.seed);
+    let tal = fq2_alpha_x(run.tier.pick(5, 8), run.seed, 2);
     let tlv: Vec<Fq2> = tal.iter().map(fq2).collect();
     let tn = tal.len() as u64;
     run.grid(
